@@ -471,6 +471,16 @@ class Interp(object):
         it = self.eval(s.iter, fr)
         ordinal = fr.loop_ordinal
         fr.loop_ordinal += 1
+        if it.kind == 'keys' and it.what == 'items' and it.base.kind == 'adj':
+            from .loops import VBag
+            adj = it.base
+            Row = adj.g['Row_' + adj.w]
+            it = VBag([Node], lambda a: Row[a], lambda a: VTuple([VNode(a), VRow(adj.g, adj.w, a, adj.view)]), note='adjacency items')
+        elif it.kind == 'row' or (it.kind == 'keys' and it.what == 'keys' and it.base.kind == 'row'):
+            from .loops import VBag
+            row = it if it.kind == 'row' else it.base
+            Cells = row.g['Cell_' + row.w][row.u]
+            it = VBag([Node], lambda b: Cells[b] != 0, lambda b: VNode(b), note='neighbours')
         if it.kind == 'tteinner':
             # iteration over the keys of one inner dict of the event log: a set of (u, v, op) keys, order unspecified
             from .loops import VBag
@@ -812,6 +822,17 @@ class Interp(object):
         v = self.eval(e.value, fr) if e.value is not None else VNone
         if fr.yields is None:
             raise Undecided('yield outside generator frame')
+        if '$ypair' in fr.env:
+            # ghost multiset of yielded interaction tuples (a, b, data)
+            if not (v.kind == 'tuple' and len(v.items) == 3 and v.items[0].kind == 'node' and v.items[1].kind == 'node'):
+                raise Undecided('yield of a value that is not an interaction tuple')
+            a, b, data = v.items[0].z, v.items[1].z, v.items[2]
+            hook = getattr(self, 'on_yield_pair', None)
+            if hook:
+                hook(self, a, b, data)
+            y = fr.env['$ypair'].z
+            fr.env['$ypair'] = VOpaque(z3.Store(y, a, z3.Store(y[a], b, y[a][b] + 1)), 'ghost')
+            return VNone
         if '$ycnt' in fr.env:
             # ghost multiset of yielded event tuples (u, v, op, t) and the time of the last yield
             if not (v.kind == 'tuple' and len(v.items) == 4 and v.items[3].kind == 'int'):
@@ -972,7 +993,13 @@ class Interp(object):
                 return True
             parts = [p for p in parts if p is not False]
             return z3.Or(*parts) if parts else False
+        if k == 'dict' and getattr(c, 'symset', None) is not None:
+            if x.kind != 'node':
+                return False
+            return c.symset[x.z]
         if k == 'dict':
+            if x.kind == 'node' and not c.pairs:
+                return False
             parts = [veq(x, y) for y, _ in c.pairs]
             if any(p is True for p in parts):
                 return True
@@ -1241,6 +1268,12 @@ class Interp(object):
                 if c.esc[0] == 'edgedata':
                     return self.setitem(VEdgeData(c.esc[1], c.esc[2]), key, v)
                 raise Undecided('store into an escaped local dict')
+            if key.kind == 'node' and (not c.pairs or getattr(c, 'symset', None) is not None):
+                # helper dicts such as `seen[n] = 1`: only membership is ever asked, modelled as a set of nodes
+                if getattr(c, 'symset', None) is None:
+                    c.symset = z3.K(Node, z3.BoolVal(False))
+                c.symset = z3.Store(c.symset, key.z, True)
+                return
             for i, (kk, vv) in enumerate(c.pairs):
                 eq = veq(kk, key)
                 if eq is True:
